@@ -139,6 +139,25 @@ func ScenarioClasses(v *Verdict, sc *Scenario) {
 	if hostile {
 		v.Class("hostile-labels")
 	}
+	for i := range sc.Convs {
+		if len(sc.Convs[i].In) < 2 {
+			continue
+		}
+		for j := range sc.Convs {
+			used := 0
+			for _, o := range sc.Convs[j].Out {
+				for _, p := range sc.Convs[i].In {
+					if i != j && RMinus(p, o) {
+						used++
+						break
+					}
+				}
+			}
+			if used >= 2 {
+				v.Class("diamond")
+			}
+		}
+	}
 	if len(sc.Convs) > 8 || len(sc.Target.In) > 4 {
 		v.Class("wide-scenario")
 	}
